@@ -29,6 +29,38 @@ def convolve (na nb : Nat) (a b : Nat → α) (k : Nat) : α :=
 
 end
 
+/-! `Polynomial.abel`: the closed-form one-sided integrals `a(k) = ∫ r^k dy` (coefficient recursion `C`, Horner sum in x²) -/
+section
+variable {α : Type} [Zero α] [One α] [Add α] [Sub α] [Mul α] [Div α] [NatCast α]
+
+/-- `C[2j]` of `a(k)`: `C[0] = 1/(k+1)`, `C[k−m+2] = C[k−m]·m/(m−1)` for `m = k, k−2, … > 1` -/
+def abelC (k : Nat) : Nat → α
+  | 0 => 1 / ((k + 1 : Nat) : α)
+  | j + 1 => abelC k j * ((k - 2 * j : Nat) : α) / ((k - 2 * j - 1 : Nat) : α)
+
+/-- `a(k)` from `Dyr[p] = (y r^p)|_lo^up` and `Dlnry = ln(r + y)|_lo^up`:
+    `Σ_j C[2j] x^{2j} Dyr[k−2j]`, plus `C[k−1] x^{k+1} Dlnry` for odd `k` -/
+def abelA (k : Nat) (x2 : α) (D : Nat → α) (Dln : α) : α :=
+  sumRange (k / 2 + 1) (fun j => abelC k j * pow x2 j * D (k - 2 * j))
+    + (if k % 2 = 1 then abelC k (k / 2) * pow x2 (k / 2 + 1) * Dln else 0)
+
+variable [LT α] [DecidableRel (α := α) (· < ·)] [HasSqrt α] [HasLog α]
+
+def sqrt0 (t : α) : α := if 0 < t then sqrt t else 0
+def ln0 (t : α) : α := if 0 < t then log t else 0
+
+/-- `Polynomial(r, r_min, r_max, c).abel` at a sample `x < r_max` (coefficients already shifted/stretched):
+    `Σ_k c_k · 2 a(k)` -/
+def polyAbelAt (N : Nat) (c : Nat → α) (rmin rmax x : α) : α :=
+  let x2 := x * x
+  let yup := sqrt0 (rmax * rmax - x2)
+  let ylo := sqrt0 (rmin * rmin - x2)
+  let D := fun p => pow rmax p * yup - pow rmin p * ylo
+  let Dln := ln0 (rmax + yup) - ln0 ((if rmin < x then x else rmin) + ylo)
+  sumRange N fun k => c k * ((2 : Nat) : α) * abelA k x2 D Dln
+
+end
+
 /-- `Angular.cossin(m, n).c[k]`: coefficients of `cos^m θ · sin^n θ = x^m (1 − x²)^{n/2}` in powers of x = cos θ -/
 def cossinCoeff (m n k : Nat) : Int :=
   if m ≤ k ∧ (k - m) % 2 = 0 ∧ (k - m) / 2 ≤ n / 2 then
